@@ -3,6 +3,7 @@ package bootstrap
 import (
 	"fmt"
 	"os"
+	"sync"
 
 	"github.com/goatcms/goatcore/app"
 	"github.com/goatcms/goatcore/varutil/goaterr"
@@ -59,6 +60,7 @@ func (b *Bootstrap) Run() (err error) {
 	var (
 		appScope = b.gapp.Scopes().App()
 		errs     []error
+		mu       sync.Mutex
 	)
 	if !b.inited {
 		return goaterr.Errorf("Bootstrap.Run must be run after modules init")
@@ -71,8 +73,11 @@ func (b *Bootstrap) Run() (err error) {
 	for _, module := range b.modules {
 		go func(module app.Module) {
 			defer appScope.DoneTask()
-			if err = module.Run(b.gapp); err != nil {
+			// the result is local to the goroutine and the list is guarded: modules finish concurrently
+			if err := module.Run(b.gapp); err != nil {
+				mu.Lock()
 				errs = append(errs, err)
+				mu.Unlock()
 			}
 		}(module)
 	}
